@@ -25,7 +25,7 @@ def alpha_ok(alpha, arity):
 
 
 def gen_kb(rng, n_atoms=(2, 5), n_conn=(1, 6), kinds=None, weighted=True, downward=True,
-           alphas=True, atom_alpha=True, max_arity=4, worlds=False):
+           alphas=True, atom_alpha=True, max_arity=4, worlds=False, repeat_p=0.1):
     kinds = kinds or ["and", "or", "implies", "not", "iff", "xor", "and", "or", "implies"]
     nodes = []
     na = rng.randint(*n_atoms)
@@ -50,11 +50,12 @@ def gen_kb(rng, n_atoms=(2, 5), n_conn=(1, 6), kinds=None, weighted=True, downwa
                 ar = rng.choice([2, 2, 3])
             else:
                 ar = rng.randint(2, max_arity)
-            # prefer recent nodes so that graphs get deep; allow repeats of one operand rarely
+            # prefer recent nodes so that graphs get deep; one formula object in several operand slots (And(A, A),
+            # Or(A, B, A)) is legal: rarely by default, often when repeat_p is raised
             ops = []
             for _ in range(ar):
                 c = rng.choice(pool[-4:] if rng.random() < 0.5 else pool)
-                if c in ops and rng.random() < 0.9 and len(set(pool)) > len(set(ops)):
+                if c in ops and rng.random() >= repeat_p and len(set(pool)) > len(set(ops)):
                     c = rng.choice([p for p in pool if p not in ops])
                 ops.append(c)
             n["ops"] = ops
